@@ -81,6 +81,7 @@ func c03Shapes() []docgen.Doc {
 		{Records: []docgen.GRecord{mk("2020-01-01", nil, e("1h", "trailing blanks  "), e("16:00 - ?  "))}},
 		{Records: []docgen.GRecord{mk("1999-12-31", nil, e("2h")), mk("2020-01-01", []string{"t"}, e("16:00-?", "summary with trailing tab\t", "and continuation  "), e("-3m", "p "))}},
 		{Records: []docgen.GRecord{mk("2020-01-01", nil, e("17:00 - ????????", "long placeholder"), e("-0h05m", "padded pause")), mk("2020-02-02", nil, e("1h", "tail"))}},
+		{Records: []docgen.GRecord{mk("2020-01-01", nil, e("-30m", "Lunch"), e("12:30 - ?", "work", "chapter one", "chapter two"))}},
 		{Records: []docgen.GRecord{mk("2025-01-01", nil, e("1h")), mk("2020-01-01", nil, e("<22:00 - ??", "x"), e("-5m"), e("0m")), mk("1999-12-31", nil, e("20:00 - ?"))}},
 	}
 	return append(shapes, extra...)
@@ -106,7 +107,7 @@ func init() {
 	fw.Register(&fw.Check{
 		ID:    "C03",
 		Title: "Mutating commands touch only the lines they are defined to change",
-		Rule: "layouts = the formatting product (indentation per record {4,3,2 spaces, tab}^2 x LF/CRLF/mixed x blank-line runs before/between/after incl. whitespace-only lines x final newline yes/no x headline gap) over 36 shapes " +
+		Rule: "layouts = the formatting product (indentation per record {4,3,2 spaces, tab}^2 x LF/CRLF/mixed x blank-line runs before/between/after incl. whitespace-only lines x final newline yes/no x headline gap) over 37 shapes " +
 			"(1-3 records, target record first/middle/last/absent, multi-line summaries, open ranges present/absent and followed by other entries, pause entries; quick: every 13th layout, thorough: all) x 42 operations " +
 			"(track 1-/3-line at 5 dates; start --time/-s/multi-line/--resume/now at 3 dates; stop plain, 1-, 3-line and continuation-only summaries; switch; pause with ticks, --no-tags, --extend; create at dates before/between/after/equal with --should and 2-line summary). " +
 			"A case = (layout, operation) where the command succeeds; distinct by hash(file, command line).",
